@@ -64,3 +64,13 @@ add("C05", "model_checking",
     "A real Mirror (real kernel goroutine, shipped in-memory stores) handles one prevote or precommit message for the voting round, next round, a future round, a future height or height 0, with right or wrong validator-set hash, 1-2 block entries (known, nil, unknown hash) and 1-2 signatures each whose key ids are member / out-of-range / malformed and whose validity is an uninterpreted predicate (forged, foreign, wrong-target and honest signatures are all points of that predicate), optionally after a valid vote. Afterwards every signature found in the voting/committing views and in the round store is re-verified through the same predicate for exactly the kind/height/round/hash it is filed under, and a message with no verifying member signature must leave the views unchanged and not be reported as accepted.",
     "Bounds: 2 validators, one message (plus an optional earlier valid vote), deterministic cooperative schedule between caller and kernel goroutine (concurrent handlers are not explored). Gossip output is not inspected separately (it is a clone of the views). A wrong validator-set hash on a FUTURE round of the voting height is not rejected by the code; the signatures must still verify (recorded as an observation). BLS proofs outside.",
     "symbolic execution of go/ssa + SMT with uninterpreted verification; real mirror+kernel threads", "§5 C05")
+
+add("C07", "model_checking",
+    "Two heights and a nil round are committed through the real kernel handlers while the application changes keys and powers at every height (pairwise different sets, symbolic powers, a competing header with a decoy next set in either arrival order): after each commit the voting and next-round views use exactly the committed header's NextValidatorSet and the committing view keeps its set. Through a real Mirror, a proposed header whose validator or public-key LISTS were altered in transit while hashes, block hash and signature stay valid (4 forgery shapes, forged copy before or after the original) must not be accepted, and the set adopted after the commit must match the hashes covered by the committed block hash.",
+    "Bounds: 2 validators per set, 4 sets, 2 committed heights. The state-machine side (the sets it proposes/votes with, driver responses) is exercised by the C08/C02 harnesses, not here; restart is C10.",
+    "symbolic execution of go/ssa + SMT; real kernel and mirror", "§5 C07")
+
+add("C10", "model_checking",
+    "A 3-message history (proposed header, precommit majority, prevote at the next height under a changed validator set) is delivered to a real Mirror on the shipped in-memory stores; the process stops right after the k-th store write of a handler for every k (the writing goroutine is frozen for ever), or cleanly after any message; a new Mirror starts on the same stores, everything sent so far is delivered again and the history continues. Restart must succeed without panic, the position must not be behind the durable record, resumed views must contain only signatures that verify under the height's prescribed set, and the final committed chain, position, validator set and votes must equal the run without a stop.",
+    "Bounds: one stop per run, 2 validators per set, 3 messages; store calls atomic (no torn writes); deterministic cooperative schedule. The state machine's restart (action store, finalizations) is C02's subject; SQLite stores outside.",
+    "symbolic execution of go/ssa + SMT; crash point enumerated as a choice, real mirror+kernel threads", "§5 C10")
